@@ -144,6 +144,74 @@ def _rename_functions(trees: Dict[str, ast.Module], refs: Dict[str, ast.Module],
                 stats["T28 function renamed back"] = stats.get("T28 function renamed back", 0) + 1
 
 
+def _unwrap_thin_wrappers(trees: Dict[str, ast.Module], refs: Dict[str, ast.Module], known: Set[str], stats: Dict[str, int]) -> None:
+    """T28c: a known module-level function w reduced to `return C.m(<its own parameters>)`, with m a method the reference
+    does not have: the body of m is w's body again (self and the parameters renamed), and every `recv.m(..)` in the package
+    is the call `w(..)` it was"""
+    ref_ids = _all_identifiers(refs)
+    for mname in sorted(trees):
+        tree = trees[mname]
+        classes = {c.name: c for c in tree.body if isinstance(c, ast.ClassDef)}
+        for w in [n for n in tree.body if isinstance(n, ast.FunctionDef)]:
+            if f"{mname}.{w.name}" not in known:
+                continue
+            body = [b for b in w.body if not (isinstance(b, ast.Expr) and isinstance(b.value, ast.Constant))]
+            if not (len(body) == 1 and isinstance(body[0], ast.Return) and isinstance(body[0].value, ast.Call)):
+                continue
+            call = body[0].value
+            f = call.func
+            if not (isinstance(f, ast.Attribute) and isinstance(f.value, ast.Name) and f.value.id in classes and not call.keywords):
+                continue
+            cls = classes[f.value.id]
+            meth = next((m_ for m_ in cls.body if isinstance(m_, ast.FunctionDef) and m_.name == f.attr), None)
+            if meth is None or f.attr in ref_ids or meth.decorator_list or meth.args.vararg or meth.args.kwarg or meth.args.kwonlyargs:
+                continue
+            wpar = _params(w)
+            mpar = [a.arg for a in meth.args.args]
+            if len(call.args) != len(mpar) or not all(isinstance(a, ast.Name) for a in call.args) or sorted(a.id for a in call.args) != sorted(wpar):
+                continue
+            # other classes must not define a method of that name
+            if sum(1 for t in trees.values() for c_ in ast.walk(t) if isinstance(c_, ast.ClassDef)
+                   for m_ in c_.body if isinstance(m_, ast.FunctionDef) and m_.name == f.attr) != 1:
+                continue
+            m2w = {mp: a.id for mp, a in zip(mpar, call.args)}          # method parameter -> wrapper parameter
+            locals_ = alpha._locals(meth)
+            if set(m2w.values()) & (locals_ - set(mpar)):
+                continue
+            # 1. the wrapper gets the body back
+            new_body = copy.deepcopy([b for b in meth.body if not (isinstance(b, ast.Expr) and isinstance(b.value, ast.Constant))])
+            holder = ast.Module(body=new_body, type_ignores=[])
+            alpha._Rename(dict(m2w)).generic_visit(holder)
+            doc = [b for b in w.body if isinstance(b, ast.Expr) and isinstance(b.value, ast.Constant)][:1]
+            w.body = doc + holder.body
+            ast.fix_missing_locations(w)
+            # 2. calls of the method become calls of the wrapper
+            for t in trees.values():
+                for c_ in ast.walk(t):
+                    if isinstance(c_, ast.Call) and isinstance(c_.func, ast.Attribute) and c_.func.attr == f.attr and \
+                            not (isinstance(c_.func.value, ast.Name) and c_.func.value.id == cls.name):
+                        if any(isinstance(a, ast.Starred) for a in c_.args) or any(k.arg is None for k in c_.keywords):
+                            continue
+                        bound = {mpar[0]: c_.func.value}
+                        for mp, a in zip(mpar[1:], c_.args):
+                            bound[mp] = a
+                        for k in c_.keywords:
+                            bound[k.arg] = k.value
+                        if set(bound) != set(mpar):
+                            continue
+                        w2m = {v: k for k, v in m2w.items()}
+                        c_.func = ast.copy_location(ast.Name(w.name, ast.Load()), c_.func)
+                        c_.args = [bound[w2m[p]] for p in wpar]
+                        c_.keywords = []
+                        ast.fix_missing_locations(c_)
+            # 3. the method goes when nothing mentions it any more
+            if not any(isinstance(n, ast.Attribute) and n.attr == f.attr for t in trees.values() for n in ast.walk(t)):
+                cls.body.remove(meth)
+                if not cls.body:
+                    cls.body.append(ast.Pass())
+            stats["T28 thin wrapper unwrapped"] = stats.get("T28 thin wrapper unwrapped", 0) + 1
+
+
 def _params(fn: ast.FunctionDef) -> List[str]:
     a = fn.args
     return [p.arg for p in a.posonlyargs + a.args + a.kwonlyargs]
@@ -263,6 +331,7 @@ def sigalign(trees: Dict[str, ast.Module], known: Set[str], changed: bool) -> Di
     if changed:
         refs = _references()
         _rename_functions(trees, refs, stats)
+        _unwrap_thin_wrappers(trees, refs, known, stats)
         _rename_parameters(trees, refs, stats)
     _explicit_defaults(trees, known, stats)
     return stats
